@@ -9,7 +9,7 @@ for rates / times / centres / widths / scales / axes of any value and lists of a
 The convolution is `convolution k μ σ t = ∫_{s>0} exp(-k s) · gaussPdf μ σ (t - s) ds` with the
 area-normalised Gaussian `gaussPdf μ σ x = exp(-(x-μ)²/(2σ²)) / (σ√(2π))`.
 -/
-import GlotaranProofs.Lemmas.C05
+import GlotaranProofs.Lemmas.C05Gen
 namespace Glotaran.C05
 open Real MeasureTheory Set
 
@@ -645,5 +645,234 @@ theorem calculateDispersion_entry (irf : Irf) (axis : List Rat) (loc : List (Lis
 
 example : calculateDispersion ⟨true, [1, 2], [1/2], none, none, true, false, none, some 500, [1/2, 1/4], [], false⟩ [400, 500, 650]
     = .ok [[3/4, 1, 37/16], [7/4, 2, 53/16]] := by decide +kernel
+
+/-! ### the functions regenerated from the Python source are the model's functions
+
+`GlotaranModel/Generated/C05Fns.lean` is rewritten from the source text of the repository on every run
+(harness/props/_c05_translate.py): the numba kernels as the loop nests they are, with every scalar operation of
+the source applied to the operands the source applies it to.  The theorems below equate them, over the reals and for
+arrays of any length, with the hand-written model functions the driver executes — an edit of the source that changes
+what a kernel computes re-opens one of them. -/
+
+/-- **`calculate_decay_matrix_no_irf` as written in util.py** (loop over rates, loop over times,
+    `matrix[n_t, n_r] += np.exp(-r_n * t_n)`) run on `np.zeros` **is the model's `noIrfMatrix`**. -/
+theorem generated_no_irf_eq_model (rates times : List Rat) :
+    Gen.calculate_decay_matrix_no_irf (zeros times.length rates.length : Mat ℝ) rates times
+      = noIrfMatrix times rates := by
+  unfold Gen.calculate_decay_matrix_no_irf noIrfMatrix
+  simp only [matUpd, forRange_matMapIdx, matMapIdx_zeros]
+  rw [map_eq_map_range times]
+  apply List.map_congr_left
+  intro p hp
+  rw [map_eq_map_range rates]
+  apply List.map_congr_left
+  intro q hq
+  simp only [List.mem_range] at hp hq
+  rw [forRange_single rates.length q _ _ (fun i hi y => by
+    rw [forRange_single times.length p _ _ (fun j hj z => by simp [Ne.symm hj])]
+    simp [Ne.symm hi])]
+  rw [forRange_single times.length p _ _ (fun j hj z => by simp [Ne.symm hj])]
+  simp [hp, hq]
+
+example : Gen.calculate_decay_matrix_no_irf (zeros 2 1 : Mat ℝ) [3] [0, 1] = noIrfMatrix [0, 1] [3] :=
+  generated_no_irf_eq_model [3] [0, 1]
+
+/-- **The numba kernel `calculate_decay_matrix_gaussian_irf_on_index` as written in the source** — the loop nest
+    Gaussians × rates × times, `alpha`, `beta`, `thresh`, the branch on `thresh < -1`, both `+=` stores and the
+    back-sweep store — run on `np.zeros` **is the model's `kernelOnIndex`** (hence, entry by entry, `kernelEntry`
+    / `gaussEntry`), for any number of Gaussians, rates and times (one width and one scale per centre). -/
+theorem generated_kernel_eq_model_on_index (rates times centers widths scales : List Rat) (bs : Bool) (T : Rat)
+    (hw : widths.length = centers.length) (hs : scales.length = centers.length) :
+    Gen.calculate_decay_matrix_gaussian_irf_on_index (zeros times.length rates.length : Mat ℝ) rates times
+        centers widths scales bs T
+      = kernelOnIndex (centers.zip (widths.zip scales)) bs T times rates := by
+  unfold Gen.calculate_decay_matrix_gaussian_irf_on_index kernelOnIndex
+  simp only [matUpd, ite_matMapIdx, ite_matMapIdx_right]
+  simp only [matMapIdx_matMapIdx, forRange_matMapIdx, matMapIdx_zeros]
+  rw [map_eq_map_range times]
+  apply List.map_congr_left
+  intro p hp
+  rw [map_eq_map_range rates]
+  apply List.map_congr_left
+  intro q hq
+  simp only [List.mem_range] at hp hq
+  -- entry (p, q): only the iterations n_t = p, n_r = q of the two inner loops touch it
+  conv_lhs =>
+    arg 3
+    ext n_i y
+    rw [forRange_single rates.length q _ _ (fun i hi y => by
+      rw [forRange_single times.length p _ _ (fun j hj z => by simp [Ne.symm hj])]
+      simp [Ne.symm hi])]
+    rw [forRange_single times.length p _ _ (fun j hj z => by simp [Ne.symm hj])]
+    simp only [hp, hq, if_true, and_self]
+  -- the loop over the Gaussians is the model's fold of `entryStep`
+  unfold kernelEntry
+  rw [← forRange_zip3 centers widths scales hw hs
+    (fun c w s y => entryStep bs T (rates.getD q 0) (times.getD p 0) y (c, w, s))]
+  apply forRange_congr
+  intro i _ y
+  generalize centers.getD i 0 = c
+  generalize widths.getD i 0 = w
+  generalize scales.getD i 0 = s
+  generalize rates.getD q 0 = k
+  generalize times.getD p 0 = t
+  simp only [entryStep, gaussEntry, threshLt_real, backsweepValid_real, erfcxBranch, erfBranch, backsweepTerm, threshT,
+    betaT, alphaT, num_ofRat, num_add, num_sub, num_mul, num_div, num_neg, num_exp, num_erf, num_erfcx, num_sqrt2,
+    num_lt, num_abs, Bool.and_self_left]
+  push_cast
+  split_ifs <;> ring_nf
+
+example : Gen.calculate_decay_matrix_gaussian_irf_on_index (zeros 2 1 : Mat ℝ) [1] [4, 5] [0, 1] [1, 1/2] [2, 3] true 13
+    = kernelOnIndex [(0, 1, 2), (1, 1/2, 3)] true 13 [4, 5] [1] :=
+  generated_kernel_eq_model_on_index [1] [4, 5] [0, 1] [1, 1/2] [2, 3] true 13 rfl rfl
+
+/-- **The per-index kernel `calculate_decay_matrix_gaussian_irf` as written in the source** (for every `n_w` the
+    kernel above on the slice `matrix[n_w]` with `all_centers[n_w]`, `all_widths[n_w]` and the shared scales /
+    back-sweep) **is, slice by slice, the model's `kernelOnIndex` on the centres and widths of that index** — the
+    expression `matrixDep` is built from. -/
+theorem generated_kernel_eq_model_all_indices (rates times scales : List Rat) (allC allW : List (List Rat))
+    (bs : Bool) (T : Rat)
+    (h : ∀ n, n < allC.length → (allW.getD n []).length = (allC.getD n []).length ∧
+      scales.length = (allC.getD n []).length) :
+    Gen.calculate_decay_matrix_gaussian_irf (zeros3 allC.length times.length rates.length : List (Mat ℝ)) rates times
+        allC allW scales bs T
+      = (List.range allC.length).map (fun n =>
+          kernelOnIndex ((allC.getD n []).zip ((allW.getD n []).zip scales)) bs T times rates) := by
+  simp only [Gen.calculate_decay_matrix_gaussian_irf, forRange_slabUpd, zeros3, mapIdx_replicate']
+  apply List.map_congr_left
+  intro n hn
+  simp only [List.mem_range] at hn
+  simp only [hn, if_true]
+  exact generated_kernel_eq_model_on_index _ _ _ _ _ _ _ (h n hn).1 (h n hn).2
+
+example : Gen.calculate_decay_matrix_gaussian_irf (zeros3 2 2 1 : List (Mat ℝ)) [1] [4, 5] [[0, 1], [2, 3]] [[1, 1/2], [1, 1/4]] [2, 3] false 0
+    = (List.range 2).map (fun n => kernelOnIndex (([[0, 1], [2, 3]].getD n []).zip (([[1, 1/2], [1, 1/4]].getD n []).zip [2, 3])) false 0 [4, 5] [1]) :=
+  generated_kernel_eq_model_all_indices [1] [4, 5] [2, 3] [[0, 1], [2, 3]] [[1, 1/2], [1, 1/4]] false 0 (by decide)
+
+/-- **`decay_matrix_implementation_index_independent` as written in util.py** — the isinstance test, the call of
+    `irf.parameter(None, global_axis)`, the kernel on `centers - shift`, `matrix /= np.sum(irf_scales)` when `normalize`,
+    the no-IRF kernel otherwise — run on `np.zeros` **is the model's `matrixIndep` / `noIrfMatrix`** (errors of
+    `parameter` included). -/
+theorem generated_glue_indep_eq_model (irf : Option Irf) (axis times rates : List Rat) :
+    Gen.decay_matrix_implementation_index_independent (zeros times.length rates.length : Mat ℝ) rates axis times irf
+      = (match irf with
+         | none => .ok (noIrfMatrix times rates)
+         | some i => matrixIndep i axis times rates) := by
+  cases irf with
+  | none =>
+    simp only [Gen.decay_matrix_implementation_index_independent, generated_no_irf_eq_model]
+  | some i =>
+    simp only [Gen.decay_matrix_implementation_index_independent, matrixIndep, bindE]
+    cases hp : parameter i none axis with
+    | error e => rfl
+    | ok p =>
+      obtain ⟨h1, h2⟩ := parameter_lengths_agree i none axis p hp
+      simp only [matrixOfParams, gaussians, vecSubScalar]
+      rw [generated_kernel_eq_model_on_index _ _ _ _ _ _ _ (by simpa using h1) (by simpa using h2)]
+      cases i.normalize <;> simp [matDivScalar, normalise]
+
+example : Gen.decay_matrix_implementation_index_independent (zeros 2 1 : Mat ℝ) [1] [400] [4, 5]
+      (some ⟨false, [1, 2], [1/2], some [1, 3], none, true, false, none, none, [], [], false⟩)
+    = matrixIndep ⟨false, [1, 2], [1/2], some [1, 3], none, true, false, none, none, [], [], false⟩ [400] [4, 5] [1] :=
+  generated_glue_indep_eq_model _ [400] [4, 5] [1]
+
+/-- **`decay_matrix_implementation_index_dependent` as written in util.py** — the loop over the global axis calling
+    `irf.parameter(global_index, global_axis)` and appending `centers - shift` / `widths`, scales and back-sweep taken
+    from the last iteration, the per-index kernel, `matrix /= np.sum(irf_scales)` when `normalize` — run on `np.zeros`
+    **is the model's `matrixDep`** (errors of `parameter` included; an empty axis gives an empty result on both sides). -/
+theorem generated_glue_dep_eq_model (irf : Irf) (axis times rates : List Rat) :
+    Gen.decay_matrix_implementation_index_dependent (zeros3 axis.length times.length rates.length : List (Mat ℝ))
+        rates axis times irf
+      = matrixDep irf axis times rates := by
+  unfold Gen.decay_matrix_implementation_index_dependent matrixDep
+  rw [forRangeM_bindE]
+  cases hps : (List.range axis.length).mapM (fun i => parameter irf (some i) axis) with
+  | error e => rfl
+  | ok ps =>
+    obtain ⟨hlen, hall⟩ := allParams_spec irf axis ps hps
+    have hfold := foldl_collect ps [] [] default
+    simp only [show (default : Params).backsweep = false from rfl, show (default : Params).period = 0 from rfl,
+      show (default : Params).scales = [] from rfl] at hfold
+    simp only [bindE, hfold, List.nil_append]
+    have hl : (ps.map (fun p => p.centers.map (· - p.shift))).length = axis.length := by simp [hlen]
+    have h : ∀ n, n < (ps.map (fun p => p.centers.map (· - p.shift))).length →
+        ((ps.map (·.widths)).getD n []).length = ((ps.map (fun p => p.centers.map (· - p.shift))).getD n []).length ∧
+        (ps.getLastD default).scales.length = ((ps.map (fun p => p.centers.map (· - p.shift))).getD n []).length := by
+      intro n hn
+      have hn' : n < axis.length := by simpa [hlen] using hn
+      obtain ⟨p, hpi, hpp⟩ := hall n hn'
+      obtain ⟨h1, h2⟩ := parameter_lengths_agree irf (some n) axis p hpp
+      have hj : axis.length - 1 < axis.length := by omega
+      obtain ⟨q, hq1, hq2⟩ := hall (axis.length - 1) hj
+      have hlast : ps.getLastD default = q := by
+        rw [List.getLastD_eq_getLast?, List.getLast?_eq_getElem?, hlen, hq1]; rfl
+      obtain ⟨hs, _⟩ := parameter_index_free_part irf (some (axis.length - 1)) (some n) axis q p hq2 hpp
+      rw [hlast, hs]
+      simp [List.getD, hpi, h1, h2]
+    rw [← hl, generated_kernel_eq_model_all_indices _ _ _ _ _ _ _ h]
+    cases irf.normalize <;> simp [slabDivScalar, matDivScalar, normalise]
+
+example : Gen.decay_matrix_implementation_index_dependent (zeros3 2 1 1 : List (Mat ℝ)) [1] [400, 500] [0]
+      ⟨false, [1], [1/2], none, some [0, 3/4], true, false, none, none, [], [], false⟩
+    = matrixDep ⟨false, [1], [1/2], none, some [0, 3/4], true, false, none, none, [], [], false⟩ [400, 500] [0] [1] :=
+  generated_glue_dep_eq_model _ [400, 500] [0] [1]
+
+/-! ### irf.py: `is_index_dependent`, the dispersion variable and the dispersion loops, regenerated from the source -/
+
+/-- **`is_index_dependent` as written in irf.py** (`self.shift is not None`; for the spectral classes
+    `super().is_index_dependent() or self.dispersion_center is not None`) **is the model's `isIndexDependent`**. -/
+theorem is_index_dependent_generated_eq_model (irf : Irf) :
+    isIndexDependent irf
+      = if irf.spectral then Gen.is_index_dependent_spectral irf else Gen.is_index_dependent_base irf := by
+  unfold isIndexDependent Gen.is_index_dependent_spectral Gen.is_index_dependent_base
+  cases irf.spectral <;> simp
+
+example : isIndexDependent ⟨true, [1], [1/2], none, none, true, false, none, some 500, [], [], false⟩ = true ∧
+    Gen.is_index_dependent_base ⟨true, [1], [1/2], none, none, true, false, none, some 500, [], [], false⟩ = false := by
+  decide +kernel
+
+/-- **The dispersion variable as written in `IrfSpectralMultiGaussian.parameter`** (`1e3 / index - 1e3 / x0` when
+    `model_dispersion_with_wavenumber`, else `(index - x0) / 100`) **is the model's `dispDist`**. -/
+theorem dispersion_dist_generated_eq_model (wn : Bool) (x x0 : Rat) :
+    Gen.dispersion_dist wn x x0 = dispDist wn x x0 := by
+  unfold Gen.dispersion_dist dispDist
+  rfl
+
+example : Gen.dispersion_dist true 400 500 = 1/2 ∧ Gen.dispersion_dist false 400 500 = -1 := by decide +kernel
+
+/-- **`IrfSpectralMultiGaussian.parameter` follows the regenerated skeleton**: with the tuple `b` of the base class,
+    an index inside the axis and a dispersion centre, the result is `b` with centres and widths replaced by what the
+    two loops of the source (`for i, disp in enumerate(coefficients): values += disp * np.power(dist, i + 1)`, the
+    centre coefficients applied to the centres, the width coefficients to the widths) produce for the regenerated
+    dispersion variable of *this* index's axis value. -/
+theorem parameter_generated_eq_model (irf : Irf) (i : Nat) (axis : List Rat) (b : Params) (x0 : Rat)
+    (hb : baseParameter irf (some i) axis.length = .ok b) (hi : i < axis.length)
+    (hdc : irf.dispersionCenter = some x0)
+    (hz : irf.wavenumber = true → x0 ≠ 0 ∧ axis.getD i 0 ≠ 0) :
+    spectralParameter irf (some i) axis
+      = .ok { b with
+          centers := (Gen.spectral_dispersion irf.centerDisp irf.widthDisp
+            (Gen.dispersion_dist irf.wavenumber (axis.getD i 0) x0) b.centers b.widths).1,
+          widths := (Gen.spectral_dispersion irf.centerDisp irf.widthDisp
+            (Gen.dispersion_dist irf.wavenumber (axis.getD i 0) x0) b.centers b.widths).2 } := by
+  unfold spectralParameter
+  rw [hb]
+  simp only [Nat.not_le.mpr hi, if_false, hdc]
+  have hzz : (irf.wavenumber && x0 == 0) = false ∧ (irf.wavenumber && axis.getD i 0 == 0) = false := by
+    cases hw : irf.wavenumber with
+    | false => simp
+    | true =>
+      have := hz hw
+      refine ⟨?_, ?_⟩
+      · simpa using this.1
+      · simp only [Bool.true_and, beq_eq_false_iff_ne]; exact this.2
+  simp only [hzz.1, hzz.2, Bool.false_eq_true, if_false, Option.isNone_some, Bool.and_false,
+    Option.getD_some, spectral_dispersion_eq, dispersion_dist_generated_eq_model]
+
+example : spectralParameter ⟨true, [1, 2], [1/2], some [1, 3], some [1/4, -1/2, 3/2], true, false, none, some 500, [1/2, 1/4], [1/8], false⟩
+      (some 2) [400, 500, 650]
+    = .ok ⟨[37/16, 53/16], [11/16, 11/16], [1, 3], 3/2, false, 0⟩ := by
+  rw [parameter_generated_eq_model _ 2 _ ⟨[1, 2], [1/2, 1/2], [1, 3], 3/2, false, 0⟩ 500 (by decide +kernel) (by decide) rfl (by simp)]
+  decide +kernel
 
 end Glotaran.C05
